@@ -5,6 +5,7 @@ go 1.24.7
 require (
 	buf.build/gen/go/bufbuild/protovalidate/protocolbuffers/go v1.36.11-20260209202127-80ab13bee0bf.1
 	github.com/SebastienMelki/sebuf v0.0.0
+	go.yaml.in/yaml/v4 v4.0.0-rc.4
 	google.golang.org/protobuf v1.36.11
 	pgregory.net/rapid v1.3.0
 )
